@@ -59,6 +59,7 @@ def run_property(prop, tier, repo=None, seed=0, quiet=False, facts_by_cfg=None):
             from .core import sym as _sym
             from . import adaptors
             _sym.ANALYSED_BODIES.clear()
+            _sym.FUSED_ADAPTORS.clear()
             mod.run(ctx)
             adaptors.check(ctx, report, prop, set(_sym.ANALYSED_BODIES))
         except AnchorLost as e:
